@@ -126,7 +126,9 @@ fn push_disc(rng: &mut Rng, grid: bool, out: &mut Vec<ds::Horizontal>) {
     out.push(ds::Horizontal::Discretionary(ds::Discretionary { pre_break: pre, post_break: post, replace_count: rep_n as u32 }));
     for _ in 0..rep_n {
         if rng.chance(1, 6) {
-            out.push(kern(if grid { PT } else { rng.range_i32(-PT / 2, PT) }, ds::KernKind::Normal));
+            // any kind of kern may stand among the replaced nodes (TeX §841 adds the width of every kern node)
+            let kind = *rng.pick(&[ds::KernKind::Normal, ds::KernKind::Normal, ds::KernKind::Explicit, ds::KernKind::Accent, ds::KernKind::Math]);
+            out.push(kern(if grid { PT } else { rng.range_i32(-PT / 2, PT) }, kind));
         } else {
             out.push(boxlike(rng, grid));
         }
